@@ -1198,6 +1198,10 @@ func (m *metadataAPI) ResumePartition(streamName string, id int32, recovered boo
 	if err != nil {
 		return nil, err
 	}
+	// Also clear the flag in the protobuf value, which is what a snapshot
+	// stores; otherwise the partition comes back paused after a restart from
+	// a snapshot.
+	partition.Paused = false
 	// Update latest pause status change timestamp.
 	partition.pauseTimestamps.update()
 
